@@ -142,6 +142,11 @@ def hand_worlds():
         {"op": "reset", "h": 1999}, {"op": "hdr", "to": 2001}, {"op": "flush"}, {"op": "crash", "at": ""},
         {"op": "blk", "to": 2001}, {"op": "hdr", "to": 4001}, {"op": "flush"}, {"op": "reset", "h": 2000}, {"op": "crash", "at": "r2"},
         {"op": "hdr", "to": 2100}, {"op": "stop"}]})
+    # trusted start in the middle of a page: restarted before and after the page is completed
+    ws.append({"kind": "trusted", "t": 2500, "gcp": 5, "src": "hand", "sched": [
+        {"op": "stop"}, {"op": "hdr", "to": 2500}, {"op": "flush"}, {"op": "crash", "at": ""}, {"op": "hdr", "to": 2600}, {"op": "stop"},
+        {"op": "hdr", "to": 3999}, {"op": "flush"}, {"op": "crash", "at": ""}, {"op": "hdr", "to": 4100}, {"op": "flush"}, {"op": "stop"},
+        {"op": "look", "i": 0}]})
     return ws
 
 
@@ -193,7 +198,8 @@ def run_ext(ctx):
         if not is_ours(ctx.replay):
             return
         rp = json.load(open(ctx.replay))
-        w = dict(rp["detail"]["world"], wi=0, probe=1, cont_long=2)
+        ctx.seed = int(rp.get("seed", ctx.seed))
+        w = dict(rp["detail"]["world"], probe=1)
         ctx.tlc_mc("headerhashes", "HeaderHashesImpl.tla", "MC_trusted.cfg", timeout=600, workers=4)
         return drive_and_judge(ctx, [w], q, selftests=False)
     pool = concurrent.futures.ThreadPoolExecutor(max_workers=6)
@@ -226,7 +232,7 @@ def run_ext(ctx):
     ce_futs = [(pool.submit(ce, cfg), kind) for cfg, kind in CE]
     # 2. schedules generated by TLC
     worlds = []
-    n_each = {"arch": 2, "gc": 2, "trusted": 3} if q else {"arch": 50, "gc": 24, "trusted": 40}
+    n_each = {"arch": 2, "gc": 2, "trusted": 3} if q else {"arch": 36, "gc": 16, "trusted": 32}
     for i, kind in enumerate(("arch", "gc", "trusted")):
         hs = ctx.tlc_sim("headerhashes", "HeaderHashesSim.tla", "Sim_%s.cfg" % kind, num=30 if q else 600, depth=70,
                          timeout=300, seed=ctx.seed * 10 + i)
@@ -274,7 +280,7 @@ def run_ext(ctx):
     # 3. seeded random and hand-made worlds
     hw = hand_worlds()
     worlds += hw[:2] + hw[3:] if q else hw
-    for i in range(2 if q else 96):
+    for i in range(2 if q else 60):
         kind = ("arch", "gc", "trusted", "arch")[i % 4] if not q else ("arch", "trusted")[i % 2]
         worlds.append(random_world(rnd, kind, 14 if q else 22, 2300 if q else 6100))
     if not q:
@@ -327,6 +333,7 @@ def drive_and_judge(ctx, worlds, q, join=None, selftests=True):
         k = e["event"] + (":" + e["op"] if e["event"] == "step" else "")
         kinds[k] = kinds.get(k, 0) + 1
     ctx.extra["hh_event_kinds"] = kinds
+    byw = {w["wi"]: w for w in worlds}
     ndrift = {}
     first = {}     # world -> (line, names): the first falsified step of a world is the violation
     for f in fails:
@@ -346,7 +353,7 @@ def drive_and_judge(ctx, worlds, q, join=None, selftests=True):
     for wi in sorted(first):
         line, names, fctx = first[wi]
         ev = events[line - 1]
-        wd = worlds[wi]
+        wd = byw[wi]
         w = min(names, key=lambda n: PRIORITY.index(n) if n in PRIORITY else len(PRIORITY))
         sig = {"part": "headerhashes", "kind": w, "node": wd["kind"], "at": ev["event"] if ev["event"] != "step" else ev["op"],
                "cause": cause(ev) if w in ("Restarted", "Extends", "ResetOK", "NoPanic") else ""}
@@ -365,7 +372,7 @@ def drive_and_judge(ctx, worlds, q, join=None, selftests=True):
     pr = [e for e in events if e["event"] == "probe" and e.get("ok")]
     if pr:
         e = pr[len(pr) // 2]
-        ctx.samples.append({"headerhashes_crash_probe": {"world": e["world"], "kind": worlds[e["world"]]["kind"], "step": e["step"], "batch": e["batch"],
+        ctx.samples.append({"headerhashes_crash_probe": {"world": e["world"], "kind": byw[e["world"]]["kind"], "step": e["step"], "batch": e["batch"],
                                                          "hh": e["obs"]["hh"], "bh": e["obs"]["bh"], "segs": e["obs"]["segs"][:6],
                                                          "mem": e["obs"]["mem"], "pages": e["obs"]["pages"], "cont": {k: v for k, v in e["cont"].items() if k != "obs"}}})
     # 6. binding self-test on the worlds the judge accepted
